@@ -25,6 +25,11 @@ pub enum StepFrame {
     Truncated { frame: FrameCase, keep: u16 },
     /// xor bytes at fractional positions
     Corrupt { frame: FrameCase, flips: Vec<(u16, u8)> },
+    /// a compressed block is cut short INSIDE (its size field says so): it ends right after a
+    /// structural point - the literals section, the sequence count, the modes byte, or 1..3 bytes
+    /// into the table descriptions - and the frame ends there. The failure happens in the middle of
+    /// building per-frame state (tables half replaced), not at a read from the source
+    CutBlock { frame: FrameCase, block: u8, point: u8 },
 }
 
 #[derive(Clone, Copy, Debug, Serialize, Deserialize)]
@@ -96,6 +101,7 @@ fn step_strategy(max_len: u32) -> impl Strategy<Value = Step> {
         2 => (related_strategy(max_len), cfg(), 0u8..=2).prop_map(|(data, cfg, which)| StepFrame::Dict { data, cfg, which }),
         2 => (frame_case_custom(max_len, 17, 8, 200, false), any::<u16>()).prop_map(|(frame, keep)| StepFrame::Truncated { frame, keep }),
         3 => (frame_case_custom(max_len, 17, 8, 200, false), prop::collection::vec((any::<u16>(), 1u8..=255), 1..4)).prop_map(|(frame, flips)| StepFrame::Corrupt { frame, flips }),
+        3 => (frame_case_custom(max_len, 17, 8, 200, false), 0u8..=5, 0u8..=6).prop_map(|(frame, block, point)| StepFrame::CutBlock { frame, block, point }),
     ];
     let how = prop_oneof![
         2 => any::<bool>().prop_map(|drain| How::Complete { drain }),
@@ -126,6 +132,49 @@ fn crafted_spec(first: &CompSpec, rest: &FrameSpec) -> FrameSpec {
     s.blocks.insert(0, BlockSpec::Comp(first.clone()));
     s.dict_id_bytes = 0;
     s
+}
+
+/// The frame up to and including its k-th compressed block with sequences, that block cut short
+/// after a structural point (see StepFrame::CutBlock).
+fn cut_block(bytes: &[u8], k: u8, point: u8) -> Option<Vec<u8>> {
+    let info = frame::walk(bytes, &WalkOpts::default()).ok()?;
+    let mut p = info.header.header_len;
+    let mut seen = 0u8;
+    let candidates = info.blocks.iter().filter(|b| b.btype == 2 && b.seq.as_ref().map(|q| q.nseq > 0).unwrap_or(false)).count() as u8;
+    if candidates == 0 {
+        return None;
+    }
+    let want = k % candidates;
+    for b in &info.blocks {
+        let c = p + 3;
+        if b.btype == 2 && b.seq.as_ref().map(|q| q.nseq > 0).unwrap_or(false) {
+            if seen == want {
+                let lit = b.lit.as_ref()?;
+                let seq = b.seq.as_ref()?;
+                let after_lit = lit.header_len + lit.comp;
+                let after_count = after_lit + seq.count_bytes as usize;
+                let cut = match point % 7 {
+                    0 => after_lit,
+                    1 => after_count,
+                    2 => after_count + 1, // right after the modes byte: the first description is empty
+                    3 => after_count + 2,
+                    4 => after_count + 3,
+                    5 => after_count + 4,
+                    _ => (after_count + b.stored) / 2,
+                }
+                .min(b.stored.saturating_sub(1));
+                let bh = u32::from_le_bytes([bytes[p], bytes[p + 1], bytes[p + 2], 0]);
+                let nbh = (bh & 7) | ((cut as u32) << 3);
+                let mut out = bytes[..p].to_vec();
+                out.extend_from_slice(&nbh.to_le_bytes()[..3]);
+                out.extend_from_slice(&bytes[c..c + cut]);
+                return Some(out);
+            }
+            seen += 1;
+        }
+        p = c + b.stored;
+    }
+    None
 }
 
 /// Make a valid frame invalid-on-a-fresh-decoder by editing its first block.
@@ -306,6 +355,16 @@ pub fn check(case: &Case, ctx: &mut CaseCtx) -> CaseResult {
                 }
                 Err(_) => continue,
             },
+            StepFrame::CutBlock { frame, block, point } => match frame.build() {
+                Ok(b) => match cut_block(&b.frame, *block, *point) {
+                    Some(f) => {
+                        ctx.feat("history:block_cut_short_inside");
+                        (f, None)
+                    }
+                    None => continue,
+                },
+                Err(_) => continue,
+            },
             StepFrame::Corrupt { frame, flips } => match frame.build() {
                 Ok(b) => {
                     let mut f = b.frame;
@@ -467,7 +526,7 @@ pub fn check(case: &Case, ctx: &mut CaseCtx) -> CaseResult {
 }
 
 pub fn run(eng: &Engine) {
-    eng.set_rule("histories of 1..6 frames on one decoder (valid, dictionary, truncated, corrupted; run to completion, abandoned after k blocks with or without draining, or into their error) followed by a probe decoded on the reused decoder and on a fresh decoder with the same dictionaries; probes: valid frames, frames whose first sequences use repeat offsets, frames that are invalid on a fresh decoder (first block treeless, LL/OF/ML Repeat mode without a table, a match before the frame start, a match past the declared window into drained output), dictionary frames; the probe is decoded in one go or block by block with collect()/small reads in between (same way on both decoders); the full outcome tuple is compared; non-trivial = the history contains an abandoned or failed frame and the probe is leak-sensitive; distinct by hash of all frames");
+    eng.set_rule("histories of 1..6 frames on one decoder (valid, dictionary, truncated, corrupted, a compressed block cut short inside - after its literals / sequence count / modes byte / into its table descriptions; run to completion, abandoned after k blocks with or without draining, or into their error) followed by a probe decoded on the reused decoder and on a fresh decoder with the same dictionaries; probes: valid frames, frames whose first sequences use repeat offsets, frames that are invalid on a fresh decoder (first block treeless, LL/OF/ML Repeat mode without a table, a match before the frame start, a match past the declared window into drained output), dictionary frames; the probe is decoded in one go or block by block with collect()/small reads in between (same way on both decoders); the full outcome tuple is compared; non-trivial = the history contains an abandoned or failed frame and the probe is leak-sensitive; distinct by hash of all frames");
     eng.assume("accessor values after a reset() that failed in the frame header are not compared");
     let tier = eng.tier;
     let n = eng.tier.pick(15_000, 300_000);
